@@ -101,12 +101,12 @@ def run(ctx):
 
     # ---- 3. correspondence pipelines ----
     bound = 3 if ctx.thorough() else 2
-    cap = 2500 if ctx.thorough() else 150
+    cap = 2500 if ctx.thorough() else 100
     nsh = 16
     jobs = []
     for i in range(nsh):
         jobs.append(("exh:%d" % i, [exe, "exh", str(bound), str(i), str(nsh), str(ctx.seed), str(cap)]))
-    nr = 10000 if ctx.thorough() else 1600
+    nr = 10000 if ctx.thorough() else 1000
     for i in range(nsh):
         jobs.append(("rnd:%d" % i, [exe, "rnd", str(nr), str(i), str(nsh), str(ctx.seed)]))
     for i in range(nsh):
@@ -114,7 +114,7 @@ def run(ctx):
     r = vlib.run_pipelines(jobs, driver, timeout=2400)
 
     # site coverage + ordering table from one small direct run
-    rc, res = vlib.sh("set -o pipefail; (%s rnd 600 0 1 %d; %s seq 3 0 1) 2>/dev/null | %s" % (exe, ctx.seed, exe, driver), timeout=900)
+    rc, res = vlib.sh("set -o pipefail; (%s rnd 300 0 1 %d; %s seq 3 0 1) 2>/dev/null | %s" % (exe, ctx.seed, exe, driver), timeout=900)
     sites = {}
     for l in res.split("\n"):
         if l.startswith("SITE"):
